@@ -221,8 +221,8 @@ theorem eqLikeHandler_F {c : Ctx} {m : TraitMeta} {me mine tp comp} (H : InputOK
   simp (disch := okdisch H) only [fromAttrs_F (F := c.F), variantNoAttr_F (c := c)]
   rfl
 
-theorem markerHandler_F {c : Ctx} {m : TraitMeta} {me p b s} (H : InputOK c.F c.d) :
-    markerHandler c m me p b s = markerHandler (allF c) m me p b s := by
+theorem markerHandler_F {c : Ctx} {m : TraitMeta} {me p b s w} (H : InputOK c.F c.d) :
+    markerHandler c m me p b s w = markerHandler (allF c) m me p b s w := by
   unfold markerHandler
   simp (disch := okdisch H) only [fromAttrs_F (F := c.F), variantNoAttr_F (c := c)]
   rfl
